@@ -673,3 +673,18 @@ Proof.
     + destruct (String.eqb_spec "b" ns) as [<-|_]; [contradiction|reflexivity].
   - repeat constructor; cbn; try discriminate.
 Qed.
+
+(* deny_is_local is not vacuous: under deny the plain, the qualified, the "/name" and the
+   secret:// forms of the reader's own namespace resolve, the foreign ones do not *)
+Example deny_is_local_example :
+  let d := build_global_dynamic false "" "" "" "" in
+  let w := {| w_secrets := [("a", "crt", KTLS); ("b", "crt", KTLS)]; w_services := [("a", "svc"); ("b", "svc")];
+              w_backends := []; w_files := [] |} in
+  get_tls d w "a" "crt" = ROk "a" "crt" /\ get_tls d w "a" "a/crt" = ROk "a" "crt" /\
+  get_tls d w "a" "/crt" = ROk "a" "crt" /\ get_tls d w "a" "secret://crt" = ROk "a" "crt" /\
+  get_tls d w "a" "b/crt" = RErr ECross /\ get_tls d w "a" "secret://b/crt" = RErr ECross /\
+  get_tls d w "a" "a/b/crt" = RErr EKey /\ get_tls d w "a" "ftp://crt" = RErr EProto /\
+  get_service d w "a" "b/svc" = RErr ECross /\ get_service d w "a" "svc" = ROk "a" "svc" /\
+  get_tls (build_global_dynamic false "allow" "" "" "") w "a" "b/crt" = ROk "b" "crt" /\
+  get_tls d w "" "b/crt" = ROk "b" "crt".
+Proof. vm_compute. repeat split. Qed.
